@@ -60,8 +60,15 @@ def rotations(seq, sst):
 
 
 def canon_of(o):
+    """the canonical form as the property defines it, computed from what the object contains (not from the tuple the
+    library stored for it): a macrostate is its complexes in canonical order, whatever order / container they came in;
+    a reaction is its two sorted sides and its type"""
     if isinstance(o, DomainS):
         return (o.name, o.length)
+    if isinstance(o, MacrostateS):
+        return sorted(canon_of(c) for c in o.complexes)
+    if isinstance(o, ReactionS):
+        return [sorted(canon_of(x) for x in o.reactants), sorted(canon_of(x) for x in o.products), o.rtype]
     return reg.render(o.canonical_form)
 
 
@@ -159,8 +166,8 @@ class Oracle(reg.Machine):
                 ms = [S[e] for e in op[3]]
                 if not ms or any(not isinstance(m, ComplexS) for m in ms):
                     return None
-                forms = sorted(reg.render(m.canonical_form) for m in ms)
-                name = op[4] if op[4] is not None else sorted(ms, key=lambda m: reg.render(m.canonical_form))[0].name
+                forms = sorted(canon_of(m) for m in ms)
+                name = op[4] if op[4] is not None else sorted(ms, key=canon_of)[0].name
                 if name not in [m.name for m in ms]:
                     return None
                 return cls, name, freeze(forms)
@@ -169,7 +176,7 @@ class Oracle(reg.Machine):
                 kinds = {isinstance(m, MacrostateS) for m in r + p}
                 if any(not isinstance(m, (ComplexS, MacrostateS)) for m in r + p) or len(kinds) > 1:
                     return None
-                key = lambda m: reg.render(m.canonical_form)
+                key = canon_of
                 rs, ps = sorted(r, key=key), sorted(p, key=key)
                 name = op[5] if op[5] is not None else "[{}] {} -> {}".format(
                     op[4], " + ".join(m.name for m in rs), " + ".join(m.name for m in ps))
@@ -178,9 +185,22 @@ class Oracle(reg.Machine):
             pass
         return None
 
+    def plain_request(self, op):
+        """nothing in the request besides name and canonical form can contradict the live object"""
+        if op[0] != "dom":
+            return reg.FAIL[reg.ZOO[op[2]]] == "none"
+        cls, (name, length, prefix, dtype) = reg.ZOO[op[2]], op[3:]
+        if reg.FAIL[cls] != "none" or not isinstance(length, int) or length < 0 or not name or not name.strip("*") \
+                or name.endswith("**"):
+            return False
+        return dtype is None or (dtype in ("short", "long") and (dtype == "short") == (length <= cls.DTYPE_CUTOFF))
+
     # -- one step with all checks --------------------------------------------
     def step(self, op):
         before_live = {id(o): o for o in self.live()}
+        # what the user's references reach before the request: an object nothing reaches has been dropped, it is
+        # not "live" for the property even when something inside the library still holds on to it
+        reach_before = set(self.reachable())
         before_snap = self.snapshot()
         before_ids = {cls: cls.__dict__.get("ID") for cls in reg.ZOO}
         req = None
@@ -219,8 +239,21 @@ class Oracle(reg.Machine):
         if outcome[0] in ("created", "returned"):
             res = self.slots[op[1]] if op[1] < len(self.slots) else None
         # ---- C01 ---------------------------------------------------------
+        if res is not None and id(res) in before_live and id(res) not in reach_before:
+            self.bad("C01", f"the request handed out {res!r}, which existed before the request although every reference "
+                            f"to it had been dropped (a dropped object is not live: the request must create or refuse)")
         if outcome[0] == "raised":
             kind = outcome[1]
+            if kind == "SingletonError" and req:
+                gone = [o for o in (oN, oC) if o is not None and id(o) not in reach_before]
+                if gone and all(o is None or id(o) not in reach_before for o in (oN, oC)):
+                    self.bad("C01", f"a request was refused with SingletonError because of {gone[0]!r}, to which every "
+                                    f"reference had been dropped; no live object has the requested name or canonical form")
+                gone = None
+            if req and req[1] is not None and req[2] is not None and oN is not None and oN is oC and \
+                    id(oN) in reach_before and self.plain_request(op):
+                self.bad("C01", f"a request consistent with the live {oN!r} (its name, its canonical form) raised {kind} "
+                                f"instead of returning it")
             if kind == "SingletonError":
                 if existing is not None and req and req[2] is not None and existing is not oC:
                     self.bad("C01", f"SingletonError.existing is {existing!r}, the live owner of the requested canonical form is {oC!r}")
@@ -238,6 +271,17 @@ class Oracle(reg.Machine):
                 if outcome[0] == "created" and id(res) not in before_live and (oN is not None or oC is not None):
                     self.bad("C01", f"request created {res!r} although name or canonical form belong to a live object "
                                     f"(name: {oN!r}, canonical form: {oC!r})")
+            if op[0] != "dom" and reg.FAIL[cls] == "none":
+                # both keys of the request lead to the object handed out (in whatever order / container the parts came)
+                if name is not None and res.name != name:
+                    self.bad("C01", f"a request for the name {name!r} handed out {res!r}")
+                if canon is not None and freeze(canon_of(res)) != canon:
+                    self.bad("C01", f"a request for the canonical form {canon!r} handed out {res!r} with the "
+                                    f"canonical form {freeze(canon_of(res))!r}")
+                if canon is not None and type(res)._instanceCanon.get(res.canonical_form) is res and \
+                        freeze(reg.render(res.canonical_form)) != freeze(canon_of(res)):
+                    self.bad("C01", f"{res!r} is registered under {res.canonical_form!r}, which is not the canonical "
+                                    f"form of its contents")
             if name is not None and canon is None and op[0] != "dom":
                 if id(res) not in before_live:
                     self.bad("C01", "a name-only request created an object")
@@ -265,7 +309,8 @@ class Oracle(reg.Machine):
             if now - set(before_live):
                 self.bad("C05" if outcome[1] != "UserInitError" else "C15",
                          f"a request refused with {outcome[1]} left a new live object behind")
-            if outcome[1] == "SingletonError":
+            if outcome[1] == "SingletonError" and op[0] in ("dom", "cplx", "strand", "macro", "rxn"):
+                # (split() is a sequence of requests: the parts handed out before the refused one keep their numbers)
                 for cls in reg.ZOO:
                     if cls.__dict__.get("ID") != before_ids[cls]:
                         self.bad("C01", f"a request refused with SingletonError changed {cls.__name__}.ID")
